@@ -269,6 +269,7 @@ def check_case(case, rec):
         P = Pall[0].copy(); D = Dall[0].copy(); opd = np.zeros(P.shape[0])
         refP, refD, refO = [P.copy()], [D.copy()], [opd.copy()]
         flagged = np.zeros(P.shape[0], dtype=bool)   # rays whose divergence from the reference was already reported
+        cancel_rays = np.zeros(P.shape[0], dtype=bool)   # rays whose deviation the as-built cancellation replica reproduces exactly
     cancel_explained = False
     for k in range(1, K + 1):
         s = surfs[k - 1]
@@ -389,23 +390,29 @@ def check_case(case, rec):
                 e = max(float(np.max(np.abs(P[both] - Pall[k][both]))) / scale_len,
                         float(np.max(np.abs(D[both] - Dall[k][both]))),
                         float(np.max(np.abs(opd[both] - OPD[k][both]))) / scale_len)
+                idx = np.where(both)[0]
+                dev = np.maximum(np.maximum(np.max(np.abs(P[idx] - Pall[k][idx]), axis=1) / scale_len,
+                                            np.max(np.abs(D[idx] - Dall[k][idx]), axis=1)),
+                                 np.abs(opd[idx] - OPD[k][idx]) / scale_len)
                 if hostile and sh.is_conic() and sh.c != 0 and abs(1 + sh.k) < 1e-6 and not any(
-                        s.get(q) for q in ('rx', 'ry', 'rz')) and e > 1e-8:
+                        s.get(q) for q in ('rx', 'ry', 'rz')) and e > 1e-11:
                     # is the library's point what the textbook quadratic (known mechanism) gives from ITS OWN previous
-                    # record, for exactly the rays that disagree with the reference?
-                    idx = np.where(both)[0]
-                    dev = np.maximum(np.maximum(np.max(np.abs(P[idx] - Pall[k][idx]), axis=1) / scale_len,
-                                                np.max(np.abs(D[idx] - Dall[k][idx]), axis=1)),
-                                     np.abs(opd[idx] - OPD[k][idx]) / scale_len)
-                    mm = idx[dev > 1e-8]
+                    # record, for exactly the rays that disagree with the reference?  (the replica is bit-exact, so the
+                    # match is demanded at rounding level; rays explained here stay attributed to the mechanism further
+                    # down the lens, where the lever arm may lift a sub-tolerance error above the tolerance)
+                    mm = idx[dev > 1e-11]
                     if len(mm):
                         t_ab = textbook_conic_distance(Pall[k - 1][mm] - fr.o, Dall[k - 1][mm], S.fnum(s['radius']), sh.k)
                         pred = Pall[k - 1][mm] + t_ab[:, None] * Dall[k - 1][mm]
                         a_small = np.abs((1 + sh.k) * Dall[k - 1][mm][:, 2] ** 2 + Dall[k - 1][mm][:, 0] ** 2
                                          + Dall[k - 1][mm][:, 1] ** 2) < 1e-6
-                        if np.all(a_small) and np.all(np.linalg.norm(pred - Pall[k][mm], axis=1) <= 1e-9 * (1 + np.abs(t_ab))):
+                        hit = a_small & (np.linalg.norm(pred - Pall[k][mm], axis=1) <= 1e-12 * (1 + np.abs(t_ab)))
+                        cancel_rays[mm[hit]] = True
+                        if np.all(hit[dev[dev > 1e-11] > 1e-8]) and np.any(dev > 1e-8):
                             cancel_explained = True
-                cancel = cancel_explained
+                # every ray above the tolerance is one whose deviation started at a surface where the known mechanism
+                # reproduces the library's point exactly
+                cancel = cancel_explained or (e > 1e-8 and bool(np.all(cancel_rays[idx[dev > 1e-8]])))
                 rec.check('reference-agreement', e <= 1e-8, resid=e, tol=1e-8, n=int(both.sum()),
                           key='reference-agreement' + (':conic-intersection-cancellation' if cancel else ''),
                           msg=f'surface {k}: library differs from the closed-form reference tracer by {e:.3e}')
